@@ -76,6 +76,10 @@ func initProperties() {
 				use("KINDEXH", "type switches exhaustive", anyOf(thriftGeneric, thriftPkg)),
 				use("ADVANCEPOS", "skip helpers advance", thriftPkg),
 				use("ROLEMIX", "key/value type dispatch not mixed", nil),
+				use("TYPESWITCHAGREE", "unhashable map keys boxed by every decoder", anyOf(thriftGeneric, thriftPkg)),
+				use("SIBLINGOPTS", "bulk getters honour ClearDirtyValues", thriftGeneric),
+				use("HDRUSED", "container header types checked", anyOf(thriftGeneric, thriftPkg)),
+				use("DESCSTEP", "descriptor follows the path step", thriftGeneric),
 			)},
 		{ID: "C02", Title: "JSON->Thrift conversion encodes exactly the value the JSON denotes", QuickP: true,
 			Decides: "option plumbing into the native FSM (FLAGSYNC: every conv.Option that affects j2t reaches its own flag bit, flags recomputed after every options write), the native status is tested and handled (NATIVERET), and for the portable converter (config P): every JSON-kind case of doRecurse ends in a return (CASEEXIT), the portable code reads the same options the flag table maps (OPTAGREE), no error dropped (DROPERR), thrift type switch exhaustive (KINDEXH).",
@@ -132,6 +136,7 @@ func initProperties() {
 				use("HDRFIRST", "header before elements", funcHas("thrift/generic.PathNode")),
 				use("ALLOCBOUND", "growth bounded", funcHas("thrift/generic.PathNode")),
 				use("POOLESCAPE", "copy-out before free", funcHas("thrift/generic.PathNode")),
+				use("TYPESWITCHAGREE", "unhashable map keys boxed by every decoder", thriftGeneric),
 				use("DROPERR", "errors propagate", funcHas("thrift/generic.PathNode")),
 			)},
 		{ID: "C06", Title: "Decoders survive arbitrary bytes: error, not crash, hang or over-read", QuickP: true,
@@ -162,6 +167,8 @@ func initProperties() {
 				use("UNKNOWNSKIP", "unknown skipped", protoGeneric),
 				use("RWPAIR", "reader primitives per kind", nil),
 				use("KINDEXH", "kind switches exhaustive", anyOf(protoGeneric, protoBinary)),
+				use("SIBLINGOPTS", "bulk getters honour ClearDirtyValues", protoGeneric),
+				use("DESCSTEP", "descriptor follows the path step", protoGeneric),
 			)},
 		{ID: "C08", Title: "Protobuf->JSON conversion emits valid JSON denoting exactly the message",
 			Decides: "balanced JSON on every success path of p2j (JSONPAIR), every legal map-key kind is quoted (MAPKEYQUOTE), unsigned kinds are not routed through a signed formatter (SIGNCONV), the kind switch covers the 15 scalar kinds + MESSAGE (KINDEXH), list/map loops consume and stop on errors (LOOPPROGRESS, DROPERR), unknown = error iff disallowed (NEGPOLARITY).",
@@ -328,6 +335,10 @@ func initProperties() {
 				use("ADVANCEPOS", "skip helpers advance", thriftPkg),
 				use("ROLEMIX", "key/value type dispatch not mixed", nil),
 				use("RECDEPTH", "recursion budget", thriftPkg),
+				use("TYPESWITCHAGREE", "unhashable map keys boxed by every decoder", thriftPkg),
+				use("HDRUSED", "container header types checked", thriftPkg),
+				use("POOLRESET", "recycled protocol objects fully reset", thriftPkg),
+				use("WIDTHTABLE", "skip = read = write width", nil),
 			)},
 		{ID: "C20", Title: "Protobuf wire codec agrees with the reference implementation",
 			Decides: "per kind, the descriptor-driven reader and writer use inverse wire primitives matching the spec incl. zig-zag (RWPAIR), unrolled varint stages follow the template (VARINTTEMPLATE), kind/wire tables = spec (KINDTABLE), option/flag arguments are passed in parameter order (ARGSWAP), map entries key=1/value=2 (MAPTAG), speculative lengths finished and writer errors propagated in WriteList/WriteMap/WriteMessageFields (SPECLENPAIR, DROPERR), no size panics (PANICARG).",
@@ -336,6 +347,7 @@ func initProperties() {
 				use("RWPAIR", "reader/writer symmetric", nil),
 				use("GROWCOPY", "speculative length re-allocation keeps the payload", nil),
 				use("VARINTNARROW", "varint lengths bounded before narrowing", nil),
+				use("POOLRESET", "recycled protocol objects fully reset", protoBinary),
 				use("VARINTTEMPLATE", "varint stages", nil),
 				use("KINDTABLE", "tables = spec", nil),
 				use("ARGSWAP", "arguments in order", protoBinary),
